@@ -77,34 +77,34 @@ gossip path then refuses a block whose data was not already that encoding (the h
 signs the re-packed block. `ReceiveBlock` decodes the stored data again — several methods with `common.DealWithErr` on the
 result, i.e. a panic on the producer path if decoding the re-packed data could fail. -/
 
-/-- `unpack_pack` for the flat argument types (static elementary types, `string`, `bytes`, slices of static elementary types
-    such as `address[]`, `uint32[]`, `uint256[]`): decoding the canonical encoding of well-typed values returns exactly those
-    values. Partial: slices of dynamic elements (`string[]`: liquidity `SetTokenTuple`) and arrays are not covered by this
-    theorem; for `SetTokenTuple` the statement is checked by the `abi` stream only (re-packed bytes and their decoding
-    compared on the real code). -/
+/-- `unpack_pack` for the flat argument types — static elementary types (uint8/16/32/64/256, int32/64, bool, address,
+    tokenStandard, hash, bytesN), `string`, `bytes`, and slices (of slices …) of those, i.e. every argument type of every
+    embedded ABI (`flat_signatures`): decoding the canonical encoding of well-typed values returns exactly those values.
+    Partial: fixed-size arrays (not used by any embedded ABI; Go's own Pack and Unpack disagree on arrays of dynamic
+    elements) and integer widths other than the listed ones are outside `Flat` / `HasTy`; that the values produced by a
+    successful decode are well-typed (`HasTys`) is a hypothesis here (it is what the Go types of the decoded values say). -/
 theorem unpack_pack_partial (sel : Bytes) (hsel : sel.length = 4) (tys : List Ty) (vs : List Val) (input : Bytes)
     (hflat : ∀ t ∈ tys, t.Flat) (hty : HasTys tys vs) (hp : packMethod sel tys vs = some input)
     (hlen : input.length ≤ maxAlloc) (hne : tys ≠ []) (hk : tys.length ≤ 1048576) :
     unpackMethod sel tys input = .ok vs :=
   unpackMethod_packMethod sel hsel tys vs input hflat hty hp hlen hne hk
 
-/-- which live methods `unpack_pack_partial` covers: every method of every embedded ABI has flat argument types, except
-    liquidity `SetTokenTuple` (its first argument is a `string[]`). -/
-theorem flat_signatures :
-    ∀ s ∈ Gen.abiSignatures, s.2.2.2.all Ty.flatb = true ∨ s.2.1 = "SetTokenTuple" := by
+/-- `unpack_pack_partial` covers every method of every embedded ABI of the working tree. -/
+theorem flat_signatures : ∀ s ∈ Gen.abiSignatures, s.2.2.2.all Ty.flatb = true := by
   decide
 
 theorem signature_lengths : ∀ s ∈ Gen.abiSignatures, s.2.2.2.length ≤ 1048576 := by decide
 
-/-- The receive path decodes what the send path validated: for every live method with flat argument types, the data that
+/-- The receive path decodes what the send path validated: for every live method with arguments, the data that
     `ValidateSendBlock` stores (`PackMethod` of the values it decoded and checked) decodes, at receive time, to exactly those
     values — never to an error, so the `DealWithErr` after the second decode cannot fire. -/
 theorem receive_decodes_what_send_validated (abi method : String) (sel : Bytes) (tys : List Ty)
-    (hs : (abi, method, sel, tys) ∈ Gen.abiSignatures) (hflat : tys.all Ty.flatb = true) (hne : tys ≠ [])
+    (hs : (abi, method, sel, tys) ∈ Gen.abiSignatures) (hne : tys ≠ [])
     (vs : List Val) (hty : HasTys tys vs) (stored : Bytes) (hp : packMethod sel tys vs = some stored)
     (hlen : stored.length ≤ maxAlloc) :
     unpackMethod sel tys stored = .ok vs := by
   have hsel := (selectors_wellformed _ hs).1
+  have hflat : tys.all Ty.flatb = true := flat_signatures _ hs
   have hk : tys.length ≤ 1048576 := signature_lengths _ hs
   exact unpack_pack_partial sel hsel tys vs stored
     (fun t ht => Ty.flatb_sound t (List.all_eq_true.mp hflat t ht)) hty hp hlen hne hk
